@@ -15,6 +15,18 @@ Theorem C12_shrinkingmap_shrink_unobservable : forall (o : SMap.opts) (h : list 
   SMap.m (fst (SMap.run keqb o SMap.new h)) = fst (SMap.prun keqb [] h).
 Proof. exact (shrink_unobservable K V keqb keqb_spec). Qed.
 
+(* ShrinkingMap.GetOrCreate creates once: for every option setting, every state and every sequential order of
+   GetOrCreate calls for one key, the first call decides the value (the stored one, or its constructor's result when the
+   key is missing), every call returns it, and created = true is reported by the first call only and only when the key
+   was missing. Sequential histories; atomicity of the method under concurrent callers is tied to the code by the
+   harness (forced interleavings), not proved. *)
+Theorem C12_shrinkingmap_getorcreate_creates_once : forall (o : SMap.opts) (s : SMap.st K V) k v0 (vs : list V),
+  let w := match SMap.find keqb k (SMap.m s) with Some x => x | None => v0 end in
+  let created := match SMap.find keqb k (SMap.m s) with Some _ => false | None => true end in
+  let r := SMap.run keqb o s (map (SMap.EGetOrCreate k) (v0 :: vs)) in
+  snd r = SMap.OVal w created :: map (fun _ => SMap.OVal w false) vs /\ SMap.find keqb k (SMap.m (fst r)) = Some w.
+Proof. exact (getorcreate_creates_once K V keqb keqb_spec). Qed.
+
 (* RandomMap: dense keys with exact back-indices in every reachable state, for every option setting. *)
 Theorem C12_randommap_invariant : forall (o : SMap.opts) (h : list (rev K V)),
   rinv K V keqb kzero (fst (rrun keqb kzero o rnew h)).
@@ -151,6 +163,13 @@ Proof. exact (stack_refines T zero). Qed.
 End C12a.
 
 (* non-vacuity: the guarded statements have non-trivial instances *)
+(* three callers for the missing key 0 after a deletion made the map shrink: one creation, one value for all *)
+Example C12a_getorcreate_three_callers :
+  snd (SMap.run Nat.eqb (SMap.mkOpts 1 2 1) (fst (SMap.run Nat.eqb (SMap.mkOpts 1 2 1) SMap.new [SMap.ESet 0 5%Z; SMap.EDelete 0 None]))
+         (map (SMap.EGetOrCreate 0) [101%Z; 102%Z; 103%Z]))
+  = [SMap.OVal 101%Z true; SMap.OVal 101%Z false; SMap.OVal 101%Z false].
+Proof. vm_compute. reflexivity. Qed.
+
 Example C12a_nonvacuous_queue :
   snd (qrun 0%Z (qnew 0%Z 2) [QOffer 1%Z; QOffer 2%Z; QOffer 3%Z; QForceOffer 4%Z; QPoll; QPoll; QPoll]) =
   [QOBool true; QOBool true; QOBool false; QOOpt (Some 1%Z); QOOpt (Some 2%Z); QOOpt (Some 4%Z); QOOpt None].
@@ -190,6 +209,7 @@ Proof.
 Qed.
 
 Print Assumptions C12_shrinkingmap_shrink_unobservable.
+Print Assumptions C12_shrinkingmap_getorcreate_creates_once.
 Print Assumptions C12_randommap_invariant.
 Print Assumptions C12_randommap_random_key_member.
 Print Assumptions C12_randommap_random_entry_member.
